@@ -370,6 +370,15 @@ let handle (l : SS.t) : SS.t =
   | "PH" -> (match ignored_from_json (text_of_ints (ints (f 0))) with Some h -> utf8 (print_ignored h) | None -> "none")
   | _ -> "?"
 
+(* the extracted list functions (app, flat_map, raw_lines ...) are not tail recursive and a statistics file is a list
+   of bytes: run under an unlimited stack (re-exec once through sh; stdin / stdout are inherited) *)
+let () =
+  match Stdlib.Sys.getenv_opt "C16_BIGSTACK" with
+  | Some _ -> ()
+  | None ->
+      let cmd = "ulimit -s unlimited 2>/dev/null || ulimit -s 4000000 2>/dev/null; C16_BIGSTACK=1 exec " ^ Stdlib.Filename.quote Stdlib.Sys.executable_name in
+      Stdlib.exit (Stdlib.Sys.command cmd)
+
 let () =
   let rec loop () =
     match input_line stdin with
